@@ -34,7 +34,9 @@ func runBookkeepingDirect(c *sim.Ctx) {
 	v := daemon.VerifNewConnections()
 	ips := []string{"10.1.0.1", "10.1.0.2", "10.1.0.3"}
 	ports := []int{6000, 7001, 7002}
-	addr := func() string { return fmt.Sprintf("%s:%d", ips[t.Int("d-ip", len(ips))], ports[t.Int("d-port", len(ports))]) }
+	addr := func() string {
+		return fmt.Sprintf("%s:%d", ips[t.Int("d-ip", len(ips))], ports[t.Int("d-port", len(ports))])
+	}
 	nextID := uint64(0)
 	steps := t.Range("d-steps", 8, 60)
 	c.Sample = append(c.Sample, fmt.Sprintf("bookkeeping object alone, %d events on %d IPs x %d ports", steps, len(ips), len(ports)))
